@@ -7,6 +7,6 @@ CONSTANTS
   FccFixed = TRUE
   CommitBeforeCheckpoint = FALSE
   EnvAtomic = FALSE
-INVARIANTS ConformLog ConformExt ResolvedOnlyWhenEmpty MarkedOnlyWhenResolved UpstreamConsistent VerdictInv
+INVARIANTS ConformLog ConformExt ResolvedOnlyWhenEmpty MarkedOnlyWhenResolved NoPendingCloseWithEmptyLog UpstreamConsistent VerdictInv
 PROPERTIES NoLossTProp
 CHECK_DEADLOCK TRUE
